@@ -15,7 +15,7 @@ MCCandidates == {
     C(-1800000, 50000, 32000,  3),     \* lower edge of test_fixed_gain (and of the SI default band) exactly
     C(-1800001, 50000, 32000,  4),     \* one MHz below: inside std_low_gain_bis and multi-band C only
     C(       0, 50000, 32000,  5),
-    C(   49999, 50000, 32000,  6),     \* overlaps label 5 by one MHz
+    C(   62499, 75000, 64000,  6),     \* wider slot overlapping label 5 by one MHz (and labels 7, 8 by more)
     C(   50000, 50000, 32000,  7),     \* touches label 5 exactly
     C(  112500, 75000, 64000,  8),     \* wider slot touching label 7 exactly
     C( 3000000, 50000, 50000,  9),     \* upper edge of C exactly; baud rate = slot width
